@@ -10,6 +10,7 @@ INVARIANT CellsPartition
 INVARIANT OwnerUnique
 INVARIANT EngineLocal
 INVARIANT AddrOK
+INVARIANT ShrOK
 INVARIANT Finished
 INVARIANT CutsInside
 INVARIANT WalkAligned
